@@ -6,6 +6,7 @@ error, the history is linearizable with respect to the map, rate-limited writers
 import Driver.Common
 import Sth.Model.Multihash
 import Sth.Model.Conc
+import Sth.Model.Rate
 
 namespace Driver.Sched
 open Sth Driver
@@ -164,6 +165,92 @@ def concEvent (c : CSim) (ev : String) : CSim :=
         else c
     | _ => c
 
+/-! ### replay of the real schedule on the back-pressure model Sth/Model/Rate.lean (C12)
+
+Every park of a writer or flusher at a hook point of flushTick / Flush is one step of the model; the two environment inputs
+(`inRate > flushRate`, `OutstandingWork() > 0`) are taken from the branch the real code took. Compared: a writer is released
+in the real run exactly when its `wait` step is enabled in the model, and the writers parked for good at the end are the
+writers whose notice the model has not closed. -/
+
+structure RSim where
+  s : Rate.State := {}
+  writers : List String := []
+  flushers : List String := []      -- index 0 = the store's flusher goroutine
+  bad : List String := []
+  steps : Nat := 0
+deriving Repr
+
+def rateStep (c : RSim) (st : Rate.Step) (what : String) : RSim :=
+  match Rate.step c.s st with
+  | some s' => { c with s := s', steps := c.steps + 1 }
+  | none => { c with bad := c.bad ++ [what] }
+
+def rateEvent (c : RSim) (ev : String) : RSim :=
+  let widx (t : String) : Option Nat := c.writers.findIdx? (· == t)
+  let fidx (t : String) : Option Nat := c.flushers.findIdx? (· == t)
+  match ev.splitOn ":" with
+  | [t, "go", pt] =>
+    if pt.startsWith "op" ∧ pt.endsWith ".begin" then
+      match widx t with
+      | some i => { c with s := Rate.setW c.s i .idle }
+      | none => c
+    else c
+  | [t, "ret", _, _] =>
+    match widx t with
+    | some i =>
+      (match c.s.writers[i]? with
+       | some .decide => rateStep c (.w i false) s!"writer {t}: return from decide"
+       | some (.wait _) => { c with bad := c.bad ++ [s!"writer {t} returned while the model has it waiting"] }
+       | _ => c)
+    | none => c
+  | _ =>
+    match ev.splitOn "@" with
+    | [t, pt] =>
+      match widx t with
+      | some i =>
+        let pc := (c.s.writers[i]?).getD .done
+        if pt == "store.put.primary_put_done" || pt == "store.remove.index_done" then
+          (if pc == .idle then rateStep c (.w i false) s!"writer {t}: write" else c)
+        else if pt == "store.flushtick.measured" then
+          let c1 := if pc == .idle then rateStep c (.w i false) s!"writer {t}: write" else c
+          rateStep c1 (.w i false) s!"writer {t}: measure"
+        else if pt == "store.flushtick.decided" then rateStep c (.w i true) s!"writer {t}: decide"
+        else if pt == "store.flushtick.registered" then rateStep c (.w i false) s!"writer {t}: register"
+        else if pt == "store.flushtick.waiting" then rateStep c (.w i false) s!"writer {t}: signal"
+        else if pt == "store.flushtick.released" then
+          -- the store's own flusher runs unscheduled: its close of the notice lies between its parks `committed` and `notified`
+          -- (or `stamped` and `nowork`), and the released writer may be logged before the flusher's next hook point is
+          let enabled := match pc with | .wait ch => c.s.closed.contains ch | _ => false
+          let c1 := if enabled then c else
+            match (List.range c.s.flushers.length).find? (fun j => c.s.flushers[j]? == some Rate.FPc.finish) with
+            | some j => rateStep c (.f j) s!"flusher {j}: finish (reordered)"
+            | none =>
+              match (List.range c.s.flushers.length).find? (fun j => c.s.flushers[j]? == some Rate.FPc.stamp) with
+              | some j =>
+                let c2 := rateStep c (.f j) s!"flusher {j}: to check (reordered)"
+                rateStep { c2 with s := { c2.s with work := false } } (.f j) s!"flusher {j}: no work (reordered)"
+              | none => c
+          rateStep c1 (.w i false) s!"writer {t} was released although the model's notice is still open"
+        else c
+      | none =>
+        match fidx t with
+        | some j =>
+          let pc := (c.s.flushers[j]?).getD .idle
+          if pt == "store.flush.stamped" then
+            (if pc == .idle then rateStep { c with s := { c.s with flushNow := c.s.flushNow || j == 0 } } (.f j) s!"flusher {t}: stamp" else c)
+          else if pt == "store.flush.nowork" then
+            if pc == .idle then c else     -- already taken when a released writer was logged first
+            let c1 := rateStep c (.f j) s!"flusher {t}: to check"
+            rateStep { c1 with s := { c1.s with work := false } } (.f j) s!"flusher {t}: no work"
+          else if pt == "store.flush.checked" then
+            let c1 := rateStep c (.f j) s!"flusher {t}: to check"
+            rateStep { c1 with s := { c1.s with work := true } } (.f j) s!"flusher {t}: work"
+          else if pt == "store.flush.committed" then rateStep c (.f j) s!"flusher {t}: commit"
+          else if pt == "store.flush.notified" then (if pc == .idle then c else rateStep c (.f j) s!"flusher {t}: finish")
+          else c
+        | none => c
+    | _ => c
+
 def isMutator (op : String) : Bool := op.startsWith "put:" || op.startsWith "rm:"
 def keyOfOp (op : String) : String := ((op.splitOn ":").drop 1).headD ""
 def isGC (op : String) : Bool := op.startsWith "pgc" || op.startsWith "igc"
@@ -283,7 +370,24 @@ def step (st : St) (l : Line) : St × List Msg :=
         (if c.predictedErr then [Msg.flag "conc-model-predicts-update-error"] else []) ++
         (if c.predictedLost then [Msg.flag "conc-model-predicts-lost-put"] else []),
         if c.bad.isEmpty ∧ stuck.isEmpty ∧ c.s.threads.all (fun t => t.prog.isEmpty) then some c.s else none)
-    let flags := concMsgs ++ [Msg.flag "schedule"] ++
+    -- (5) C12: the back-pressure model run on the same schedule blocks and releases the same writers
+    let rateMsgs : List Msg :=
+      if st.profile ≠ "c12" ∨ l.args.get "locks" = "1" ∨
+         evs.any (fun e => match e.splitOn ":blocked:" with | [_, pt] => pt ≠ "store.flushtick.waiting" | _ => false) then [] else
+      let ws := (st.programs.filter fun (_, ops) => ops.all fun o => (concOfOp o).isSome).map (·.1)
+      let fs := "flusher" :: (st.programs.filter fun (_, ops) => ops.all (· == "flush")).map (·.1)
+      let c0 : RSim := { s := Rate.init ws.length (fs.length - 1), writers := ws, flushers := fs }
+      let c := evs.foldl rateEvent c0
+      let realWaiting := waiting.map fun s => (s.splitOn "/").headD ""
+      let modelWaiting := ((List.range ws.length).zip ws).filterMap fun (i, w) => match c.s.writers[i]? with
+        | some (.wait ch) => if c.s.closed.contains ch then none else some w
+        | _ => none
+      let endBad := (realWaiting.filter (fun w => !modelWaiting.contains w)).map (fun w => s!"writer {w} is parked for good but the model has released it") ++
+                    (modelWaiting.filter (fun w => !realWaiting.contains w)).map (fun w => s!"the model keeps writer {w} waiting but it is not parked")
+      ((c.bad ++ endBad).take 3).map (fun b => Msg.corr s!"back-pressure model: {b}") ++
+      (if c.bad.isEmpty ∧ endBad.isEmpty ∧ c.steps > 0 then [Msg.flag "rate-model-agrees"] else []) ++
+      (if c.s.writers.any (fun pc => match pc with | .wait _ => true | _ => false) || !c.s.closed.isEmpty then [Msg.flag "rate-model-waited"] else [])
+    let flags := concMsgs ++ rateMsgs ++ [Msg.flag "schedule"] ++
       (if evs.any (·.startsWith "window:open") then [Msg.flag "collector-window"] else []) ++
       (if evs.any (fun e => (e.splitOn ":blocked:").length > 1) then [Msg.flag "thread-blocked"] else []) ++
       (if evs.any (fun e => e.endsWith "@primary.gc.reloc.put") then [Msg.flag "relocation"] else []) ++
